@@ -1,5 +1,6 @@
 import GB.Base.Proto
 import GB.C16.Spec
+import GB.C16.Conn
 namespace GB.C16
 open GB GB.Proto
 
@@ -130,6 +131,30 @@ def slowVerdict (rmTok rm2Tok : String) (out : List String) : String :=
     if out = modelOut then "OK nt b=remove-while-resolving"
     else "DIFF model=" ++ ",".intercalate modelOut
 
+/-- `cstream <Dms> <mode> <md>`: the model's clock unit is one quarter of the deadline (D = 4; 0 = no deadline). -/
+def cstreamVerdict (d mode md : String) (out : List String) : String :=
+  let avail : Option Conn.Avail :=
+    if mode = "ready" then some (.readyAt 0)
+    else if mode = "hang" then some .connecting
+    else if mode = "refuse" then some .refusing
+    else if mode.startsWith "hold" then (mode.drop 4).toString.toNat?.map .readyAt
+    else none
+  match avail, d.toNat? with
+  | some a, some dn =>
+    let c : Conn.Ctx := { deadline := if dn = 0 then none else some 4, outMD := md = "1" }
+    let showSd : Option Nat → String
+      | none => "none"
+      | some _ => "le"
+    let modelOut : List String := match Conn.streamOpen 0 c a with
+      | .ok t sd => ["ok", s!"q={t}", s!"sdl={showSd sd}"]
+      | .unavailable t => ["unavail", s!"q={t}", "sdl=-"]
+      | .deadlineExceeded t => ["code4", s!"q={t}", "sdl=-"]
+      | .never => ["never"]
+    if out.contains "panic" then s!"VIOL stream-panics model={" ".intercalate modelOut}"
+    else if out = modelOut then s!"OK nt b=stream-{mode}"
+    else "DIFF model=" ++ ",".intercalate modelOut
+  | _, _ => "BAD c16 cstream"
+
 /-- `rr <cfg> <op>… => <tok>… w=<n> n=<n> alive=<ids> leak=<n>`  and
     `pool <cfg> <op>… => <tok>… alive=<ids> leak=<n>` -/
 def handle : Handler
@@ -168,6 +193,16 @@ def handle : Handler
     else
       let bad := out.filter (fun t => !expect.contains t)
       s!"VIOL concurrent-pool:{",".intercalate bad} model={" ".intercalate expect}"
+  | ["cstream", d, mode, md], out => cstreamVerdict d mode md out
+  | ["connrace", _seed, _n], out =>
+    -- Close racing Stream on one real AdaptedClientConn (C16_conn_close_stream_safe / _closed_is_final)
+    let expect := ["bad=0", "panic=0", "slow=0", "after=unavail"]
+    if out = expect then "OK nt b=close-vs-stream"
+    else s!"VIOL close-vs-stream:{",".intercalate (out.filter (fun t => !expect.contains t))} model={" ".intercalate expect}"
+  | ["newrace", _seed, _k], out =>
+    -- New racing New on one real pool (C16_pool_new_exclusive)
+    if out = ["bad=0"] then "OK nt b=new-vs-new"
+    else s!"VIOL concurrent-new-not-exclusive:{",".intercalate out} model=bad=0"
   | "slowrr" :: _params, out => slowVerdict "rm" "rm2" out
   | "slowres" :: _params, out => slowVerdict "close" "close2" out
   | _, _ => "BAD c16 line"
